@@ -31,6 +31,7 @@ class Handle:
         self.running_false = False
         self.hash0 = None
         self.cms = []
+        self.blind = False   # built while /proc/<pid>/stat was unreadable
 
 
 class PTable(EngineBase):
@@ -154,8 +155,12 @@ class PTable(EngineBase):
         pool = world["pool"]
         r = rng.random()
         if prop == "C01":
-            if r < 0.22:
+            if r < 0.19:
                 return {"op": "new", "slot": rng.randrange(64)}
+            if r < 0.22:
+                # psutil.Popen: a Process whose child may be reaped behind
+                # its back (SIGCHLD handler, os.wait() elsewhere)
+                return {"op": "new_popen"}
             if r < 0.24:
                 return {"op": "new_bad", "pid": rng.choice(
                     [-1, -7, 2 ** 31, 2 ** 64, 0, 2 ** 31 - 1])}
@@ -204,7 +209,12 @@ class PTable(EngineBase):
             return {"op": "pid_exists", "n": rng.choice(pool + [0, -1])}
         if prop == "C02":
             if r < 0.25:
-                return {"op": "new", "slot": rng.randrange(64)}
+                op = {"op": "new", "slot": rng.randrange(64)}
+                if rng.random() < 0.10:
+                    # the start time cannot be read while the object is
+                    # built (psutil swallows AccessDenied there)
+                    op["deny"] = 13
+                return op
             if r < 0.45:
                 op = {"op": "is_running", "h": rng.randrange(64)}
                 if rng.random() < 0.12:
@@ -475,10 +485,16 @@ class PTable(EngineBase):
         if kind == "new":
             pid = pool[op["slot"] % len(pool)]
             acc0 = len(k.acclog)
-            obj = psutil.Process(pid)
+            if op.get("deny"):
+                k.deny = {"/proc/%d/stat" % pid: op["deny"]}
+            try:
+                obj = psutil.Process(pid)
+            finally:
+                k.deny = {}
             inc = None
             for a in k.acclog[acc0:]:
-                if a[3] == "read" and a[4] == "/proc/%d/stat" % pid:
+                if a[3] == ("open" if op.get("deny") else "read") and \
+                        a[4] == "/proc/%d/stat" % pid:
                     inc = a[6]
             if inc is None:
                 return "no-inc"
@@ -489,6 +505,26 @@ class PTable(EngineBase):
                 st["probe"]("ambiguous_construction")
                 return "ambiguous"
             st["handles"].append(Handle(obj, pid, inc, idx, st["steps"]))
+            if op.get("deny"):
+                st["handles"][-1].blind = True
+                st["probe"]("handle_built_while_start_unreadable")
+            return "handle"
+        if kind == "new_popen":
+            acc0 = len(k.acclog)
+            try:
+                obj = psutil.Popen(["prog"])
+            except OSError as e:
+                if getattr(e, "errno", None) == 11:
+                    return "no-free-pid"
+                raise
+            pid = obj.pid
+            owners = {a[6] for a in k.acclog[acc0:] if a[5] == pid and a[8]}
+            cur = k.procs.get(pid)
+            if len(owners) != 1 or cur is None or cur.inc not in owners:
+                st["probe"]("ambiguous_construction")
+                return "ambiguous"
+            st["handles"].append(Handle(obj, pid, cur.inc, idx, st["steps"]))
+            st["probe"]("popen_handle")
             return "handle"
         if kind == "new_bad":
             return psutil.Process(op["pid"])
@@ -630,7 +666,8 @@ class PTable(EngineBase):
 
     def _track_gone(self, psutil, st, op, out):
         h = st.get("cur_handle")
-        if h is None or op["op"] in ("new", "new_bad", "iter", "pids",
+        if h is None or op["op"] in ("new", "new_popen", "new_bad", "iter",
+                                     "pids",
                                      "pid_exists", "boot_time"):
             return
         if out[0] == "exc" and isinstance(out[1], psutil.NoSuchProcess) and \
@@ -818,6 +855,10 @@ class PTable(EngineBase):
             h1, h2 = st["cur_handle"], st["cur_handle2"]
             want = (h1.pid == h2.pid and h1.inc == h2.inc)
             eq, ne = out[1]
+            if h1 is not h2 and (h1.blind or h2.blind):
+                ctags = ctags + ["start_unreadable_at_construction",
+                                 "both_blind" if h1.blind and h2.blind
+                                 else "one_blind"]
             if eq != want or ne == eq:
                 self._V(st, "C02.eq", ctags + [
                     "same_process" if want else "different_process"], "eq",
@@ -869,6 +910,10 @@ class PTable(EngineBase):
             alive_post = post.get(h.pid, (None,))[0] == h.inc
             val = out[1]
             tags = list(ctags)
+            if h.blind:
+                tags.append("start_unreadable_at_construction")
+                if k.version != pre_version:
+                    tags.append("table_changed_during_call")
             if h.running_false:
                 tags.append("was_false_before")
             if val and h.running_false:
@@ -1438,10 +1483,11 @@ PTable.COMPONENTS = {
 }
 PTable.PROBES_BY_PROP = {
     "C01": ["attempt_on_recycled_pid", "reuse_after_seen_gone",
-            "oneshot_block_open",
+            "oneshot_block_open", "popen_handle",
             "delivered_ok", "ev_in_reuse", "ev_reuse"],
     "C02": ["two_incarnations_compared", "same_process_across_clock_step",
             "is_running_probe_failed",
+            "handle_built_while_start_unreadable",
             "is_running_on_recycled_pid", "ev_clock_step", "ev_reuse"],
     "C04": ["identity_checked", "iterator_overlap",
             "pid_exists_with_failing_tgid_probe",
